@@ -938,16 +938,26 @@ def shard(arg):
     seed, idx, n = arg
     rng = random.Random('%s/%s/C20' % (seed, idx))
     res = Result()
-    cases = gen_cases(rng, n)
-    process(cases, res)
-    res.samples = [c for c in cases if c['kind'] == 'chain'][:1] + [c for c in cases if c['kind'] == 'form'][:1]
+    done = 0
+    while done < n:
+        # bounded memory: one gdrv call per chunk
+        k = min(1500, n - done)
+        cases = gen_cases(rng, k)
+        process(cases, res)
+        if not done:
+            res.samples = [c for c in cases if c['kind'] == 'chain'][:1] + [c for c in cases if c['kind'] == 'form'][:1]
+        done += k
+    if len(res.nontrivial) > 20000:
+        # keep the evidence small: the count is what matters beyond this point
+        import hashlib
+        res.nontrivial = set(hashlib.sha1(x.encode()).hexdigest()[:16] for x in res.nontrivial)
     return res
 
 
 def run(ctx):
     res = Result()
     nsh = 16
-    per = ctx.n(1200, 14000)
+    per = ctx.n(2000, 50000)
     for r in pmap('harness.props.c20', 'shard', [(ctx.seed, i, per) for i in range(nsh)]):
         res.merge(r)
     res.rule = ('chains: distinct (operation names, path strings, set of marks in the final marked stream, its length) with at '
